@@ -938,7 +938,34 @@ impl Engine for Conc {
                 tasks.push(r);
             }
         }
-        for _ in 0..(if template || template2 || template3 || template4 { 0 } else { nt }) {
+        // views-versus-creators template: one task serialises the shared container (or asks for
+        // roots / leaves / orphans) while the others only CREATE edges from one node x. Every other
+        // node's own list of created (directed: outgoing) edges is then fixed although its lock is
+        // busy, and what a serialisation lists under it has one possible value.
+        let template5 = !template && !template2 && !template3 && !template4 && n >= 2 && rng.chance(1, 20);
+        let shared_container = shared_container || template5;
+        if template5 {
+            let x = rng.below(n);
+            let mut r = Vec::new();
+            for _ in 0..rng.range(1, 2) {
+                r.push(Op::GView { kind: *rng.pick(&[6u8, 6, 6, 0, 1, 2]) });
+            }
+            tasks.push(r);
+            for _ in 1..nt {
+                let mut w = Vec::new();
+                for _ in 0..rng.range(1, 3) {
+                    next_edge += 1;
+                    let y = rng.below(n);
+                    w.push(if rng.chance(2, 3) {
+                        Op::Connect { u: x, v: y, e: next_edge, h: Prov::Own }
+                    } else {
+                        Op::TryConnect { u: x, v: y, e: next_edge, h: Prov::Own }
+                    });
+                }
+                tasks.push(w);
+            }
+        }
+        for _ in 0..(if template || template2 || template3 || template4 || template5 { 0 } else { nt }) {
             let k = rng.range(1, max_ops);
             let mut script = Vec::new();
             for _ in 0..k {
@@ -982,7 +1009,7 @@ impl Engine for Conc {
             policy: Policy {
                 kind,
                 writer_pref: rng.chance(2, 3),
-                preempt_in_cs: template || template2 || rng.chance(1, 3),
+                preempt_in_cs: template || template2 || template5 || rng.chance(1, 3),
                 preempt_at_release: rng.chance(1, 4),
             },
             sched_seed: rng.next_u64(),
